@@ -50,7 +50,8 @@ func forgeries(r *vk.Run) error {
 	return v2SameID(r)
 }
 
-// Family A: sourceTxID == target.BlTxID and TargetBlTxAlh != sourceAlh.
+// Family A: sourceTxID == target.BlTxID and TargetBlTxAlh != sourceAlh. Closed by /repo commit
+// d34d669 (the first step must be REJECTED); replayed on every run, a recurrence is a violation.
 func familyA(r *vk.Run) error {
 	w, err := newWorld()
 	if err != nil {
